@@ -106,11 +106,11 @@ RULES = {
            "two documents and a missing one), filter text round-trips and arbitrary strings, event flags from a real actor; live mode: 4..16 steps of policy change / remote insert with its own content hash (sender has or lacks the content) / neighbour announcement against a real live actor (H7), non-trivial there = a history with selected and excluded entries. "
            "non-trivial = policy that selects some keys and not others / >=2 steps / filter round-tripped; distinct = hash.",
     "C16": "case = store with 3..5 documents from a pool of byte-neighbour ids, filled with entries, policies and peers; 2..8 steps of "
-           "removal (1/3 attempted while open), re-creation, writes. non-trivial = at least one removal succeeded; distinct = hash of the trace.",
-    "C17": "case = 1..40 registrations over 1..8 peers and two documents with reopen and unknown documents. non-trivial = an eviction "
+           "removal (1/3 attempted while open; on file stores half of them cut by the age-based commit at a random store access, with a crash image checked), re-creation, late operations on the removed document, writes. non-trivial = at least one removal succeeded; distinct = hash of the trace.",
+    "C17": "case = 1..40 registrations over 1..8 peers and two documents (read-only or writable) with reopen, unknown documents and interleaved other store operations (capability import, policy, listing, open/close, removal and re-import). non-trivial = an eviction "
            "and a refresh both happened; distinct = hash of the trace.",
     "C18": "case = file store with 1..3 documents (1..14 offers each), flushed; head table / by-key index / both / none deleted with plain "
-           "redb; 1..3 reopen cycles with heads, 60 key-ordered queries per document and all observables checked. "
+           "redb (half of the files without the index also get the old namespaces-1 table); 1..3 reopen cycles with heads, 60 key-ordered queries per document and all observables checked. "
            "non-trivial = a table was deleted; distinct = hash of deleted tables and content.",
 }
 
